@@ -26,7 +26,7 @@ from sa import rules_qn
 from sa import rules_shared
 from sa import setalg
 from sa import tpl
-from sa.formula import atom, implies
+from sa.formula import atom, implies, equivalent, satisfiable
 
 CF = 'malt/converters/control_flow.py'
 OPCF = 'malt/operators/control_flow.py'
@@ -87,20 +87,13 @@ class BlockVars:
     pc, v, renv = rets[0]
     self.state, self.undefined, self.nouts_val = v.items
     self.env = renv
-    ret = [r for r in ast.walk(fi.node) if isinstance(r, ast.Return)][0]
-    self.ret = ret
-    self.state_name = core.norm(ret.value.elts[0])
-    self.nouts_name = core.norm(ret.value.elts[2])
-    # nouts = len(<state list>) - len(<input only set>)
-    self.nouts_assign = None
-    self.input_only_name = None
-    for n in ast.walk(fi.node):
-      if isinstance(n, ast.Assign) and core.norm(n.targets[0]) == self.nouts_name:
-        self.nouts_assign = n
-        b = pat.match('len(_X_) - len(_Y_)', n.value)
-        if b:
-          self.total_name, self.input_only_name = b['_X_'], b['_Y_']
-    self.input_only = renv.get(self.input_only_name) if self.input_only_name else None
+    # nouts is a count: the number of state elements that are outputs.  The
+    # input-only variables are the remaining state elements (no local name is
+    # consulted: `len(a) - len(b)`, `len(outputs)`, ... all evaluate to a count)
+    self.outputs = self.nouts_val.f if isinstance(self.nouts_val, setalg.CountV) else None
+    self.input_only = None
+    if self.outputs is not None and isinstance(self.state, setalg.SetV):
+      self.input_only = setalg.SetV(self.state.f & ~self.outputs)
 
 
 def eval_block_vars(model):
@@ -391,38 +384,39 @@ def ldu(load_v, name):
   # ---------------------------------------------------------------- NOUTS
   fi, ev, v, renv = eval_block_vars(model)
   state, undefined, nouts = v.items if isinstance(v, setalg.TupleV) else (None,) * 3
-  inp = renv.get('input_only')
-  ok = isinstance(state, setalg.SetV) and isinstance(inp, setalg.SetV)
+  ok = isinstance(state, setalg.SetV) and isinstance(nouts, setalg.CountV)
   cex = None
   if ok:
-    ok, cex = implies(inp.f, state.f)
+    ok, cex = implies(nouts.f, state.f)
   rep.check(ok, 'NOUTS', '%s:input_only-subset-of-state' % fi.site,
-            'input-only variables must be state variables (0 <= nouts <= len)',
-            {'counterexample': cex}, line=fi.node.lineno)
-  bvx = BlockVars(model)
-  sasg = [n for n in ast.walk(fi.node) if isinstance(n, ast.Assign) and
-          isinstance(n.value, ast.Call) and core.dotted(n.value.func) == 'sorted']
-  ok = bvx.nouts_assign is not None and bvx.input_only_name is not None and \
-      len(sasg) == 1
+            'nouts must count a subset of the state variables (0 <= nouts <= '
+            'len): `len(state) - len(input_only)` is that count only when '
+            'input_only is a subset of state',
+            {'counterexample': cex, 'nouts': repr(nouts)[:200]}, line=fi.node.lineno)
   facts = {}
+  ok = isinstance(state, setalg.SeqV) and isinstance(nouts, setalg.CountV)
   if ok:
-    total, sub = bvx.total_name, bvx.input_only_name
-    srt = sasg[0]
-    key = [k.value for k in srt.value.keywords if k.arg == 'key']
-    facts = {'nouts': core.norm(bvx.nouts_assign.value),
-             'sorted': core.norm(srt.value)}
-    ok = core.norm(srt.targets[0]) == total and len(key) == 1 and isinstance(
-        key[0], ast.Lambda) and isinstance(key[0].body, ast.Tuple) and \
-        isinstance(key[0].body.elts[0], ast.Compare) and isinstance(
-            key[0].body.elts[0].ops[0], ast.In) and core.norm(
-                key[0].body.elts[0].comparators[0]) == sub and core.norm(
-                    key[0].body.elts[0].left) == key[0].args.args[0].arg and \
-        not any(k.arg == 'reverse' for k in srt.value.keywords)
-    ok = ok and bvx.state_name == total
+    # some prefix of the segments is exactly the counted set, and every later
+    # segment is disjoint from it
+    segs = state.segs
+    facts = {'segments': [str(g)[:120] for g in segs], 'counted': str(nouts.f)[:160]}
+    ok = False
+    for k in range(len(segs) + 1):
+      pre = setalg.FALSE
+      for g in segs[:k]:
+        pre = pre | g
+      post = setalg.FALSE
+      for g in segs[k:]:
+        post = post | g
+      if equivalent(pre, nouts.f)[0] and not satisfiable(post & nouts.f):
+        ok = True
+        break
+  else:
+    facts = {'state': type(state).__name__, 'nouts': repr(nouts)[:160]}
   rep.check(ok, 'NOUTS', '%s:outputs-first' % fi.site,
-            'nouts = len(state) - len(input_only) and the state list is sorted '
-            'with `v in input_only` as first key component (outputs first); the '
-            'two must use the same set', facts, line=fi.node.lineno,
+            'the first nouts elements of the state list must be exactly the '
+            'variables nouts counts: the list is ordered outputs first, and the '
+            'ordering and the count use the same set', facts, line=fi.node.lineno,
             witness='an `if` that modifies an input-only variable sorting before '
             'an in/out variable')
   vi = cls.methods['visit_If']
@@ -450,7 +444,7 @@ def ldu(load_v, name):
            core.norm(c.func).startswith(ov + '.') and c not in keys + vals]
   ok = len(optv) == 1 and len(keys) == 1 and len(vals) == 1 and not other and \
       core.norm(keys[0].args[0]) == "ast.Constant('iterate_names')" and \
-      (vf.params()[0] + '.target') in core.norm(vals[0].args[0])
+      (vf.params()[0] + '.target') in tpl.xnorm(vf, vals[0].args[0], vals[0])
   rep.check(ok, 'OPTS', '%s:iterate_names' % vf.site,
             'for loops must append the key iterate_names and its value (the '
             'loop target text) at the same position of the options dict',
@@ -460,15 +454,18 @@ def ldu(load_v, name):
   annos = [core.norm(c) for c in ast.walk(clo.node) if isinstance(c, ast.Call) and
            (core.dotted(c.func) or '').startswith('anno.')]
   cp = clo.params()[0]
-  ok = all(('(%s, anno.Basic.DIRECTIVES' % cp) in a for a in annos) and len(annos) >= 2
+  ok = all(('(%s, anno.Basic.DIRECTIVES' % cp) in a for a in annos) and len(annos) >= 1
   rets = [r for r in ast.walk(clo.node) if isinstance(r, ast.Return)]
   full = [r for r in rets if isinstance(r.value, ast.Call) and core.dotted(
       r.value.func) == 'ast.Dict' and any(k.arg == 'keys' and not (
           isinstance(k.value, ast.List) and not k.value.elts) for k in r.value.keywords)]
   okf = len(full) == 1
-  n1, b1 = pat.first(clo.node, '_D_ = anno.getanno(%s, anno.Basic.DIRECTIVES)' % cp)
-  okf = okf and b1 is not None and pat.has(
-      clo.node, '_O_ = _D_[directives.set_loop_options]', b1)
+  # the options table is <the node's DIRECTIVES annotation>[set_loop_options]
+  okf = okf and any(
+      isinstance(n, ast.Subscript) and core.norm(n.slice) == 'directives.set_loop_options'
+      and tpl.xnorm(clo, n.value, n).startswith(
+          'anno.getanno(%s, anno.Basic.DIRECTIVES' % cp)
+      for n in ast.walk(clo.node))
   rep.check(ok and okf, 'OPTS',
             '%s:own-directives-only' % clo.site,
             'loop options must be read from the loop node\'s own DIRECTIVES '
@@ -499,11 +496,41 @@ def ldu(load_v, name):
             'every while/for opens its own loop scope holding that node',
             line=tvl.node.lineno)
   ve = model.func(DIRS, 'DirectivesTransformer.visit_Expr')
-  removed = [r for r in ast.walk(ve.node) if isinstance(r, ast.Return) and
-             isinstance(r.value, ast.Constant) and r.value.value is None]
-  rep.check(len(removed) == 2, 'OPTS', '%s:directive-call-removed' % ve.site,
-            'directive calls must be removed from the generated code',
-            {'removing_returns': len(removed)}, line=ve.node.lineno)
+  # the statement is dropped (return None) exactly when the callee is one of
+  # the directive functions: a formula over the tests of visit_Expr
+  from sa import formula as _fm
+  dfuncs = sorted(f.name for f in model.module('malt/lang/directives.py').functions.values()
+                  if not f.name.startswith('_'))
+
+  def _dir_atom(e):
+    if isinstance(e, ast.Compare) and len(e.ops) == 1 and isinstance(e.ops[0], ast.Is):
+      d = core.dotted(e.comparators[0]) or ''
+      if d.startswith('directives.') and d.split('.', 1)[1] in dfuncs:
+        return 'IS[%s]' % d.split('.', 1)[1]
+    return None
+  cases = _fm.return_cases(ve.node, _dir_atom)
+  f_none = _fm.FALSE
+  for c, v in cases:
+    if v is None or (isinstance(v, ast.Constant) and v.value is None):
+      f_none = f_none | c
+  missing = []
+  anyd = _fm.FALSE
+  for d in dfuncs:
+    anyd = anyd | atom('IS[%s]' % d)
+  for d in dfuncs:
+    only = atom('IS[%s]' % d)
+    for o in dfuncs:
+      if o != d:
+        only = only & ~atom('IS[%s]' % o)
+    if not satisfiable(f_none & only):
+      missing.append(d)
+  o2, cex = implies(f_none, anyd)
+  rep.check(not missing and o2 and len(dfuncs) >= 2, 'OPTS',
+            '%s:directive-call-removed' % ve.site,
+            'a statement is removed from the generated code exactly when it '
+            'calls a directive function (%s)' % ', '.join(dfuncs),
+            {'not_removed': missing, 'removed_without_directive': cex},
+            line=ve.node.lineno)
   # rebuilt loop nodes keep the annotations
   bcls = model.cls(BRK, 'BreakTransformer')
   for h, need in (('visit_While', ['DIRECTIVES']),
